@@ -120,7 +120,7 @@ func (b *tBroker) serve(conn net.Conn, j *tJournal, r *rand.Rand) {
 		j.mu.Unlock()
 		f := ""
 		if tag != 0 && r.Intn(100) < b.pFault {
-			f = []string{"delay", "drop", "badid", "close", "late", "delay", "late"}[r.Intn(7)]
+			f = []string{"delay", "drop", "badid", "close", "late", "delay", "late", "late"}[r.Intn(8)]
 		}
 		switch f {
 		case "drop":
@@ -144,7 +144,7 @@ func (b *tBroker) serve(conn net.Conn, j *tJournal, r *rand.Rand) {
 }
 
 func transportScenario(r *rand.Rand, thorough bool) {
-	b := &tBroker{r: rand.New(rand.NewSource(r.Int63())), pFault: []int{0, 15, 35}[r.Intn(3)], slow: time.Duration(60+r.Intn(60)) * time.Millisecond}
+	b := &tBroker{r: rand.New(rand.NewSource(r.Int63())), pFault: []int{0, 15, 35}[r.Intn(3)], slow: time.Duration(80+r.Intn(60)) * time.Millisecond}
 	tr := &kafka.Transport{Dial: b.dial, MetadataTTL: 24 * time.Hour, IdleTimeout: time.Hour, ClientID: "c06"}
 	addr := kafka.TCP("broker1:9092")
 	kafka.VerifStart()
@@ -174,9 +174,9 @@ func transportScenario(r *rand.Rand, thorough bool) {
 		plans := make([]plan, perG)
 		for i := range plans {
 			plans[i].kind = []string{"offsets", "coord"}[r.Intn(2)]
-			switch r.Intn(4) {
+			switch r.Intn(3) {
 			case 0:
-				plans[i].timeout = time.Duration(20+r.Intn(60)) * time.Millisecond
+				plans[i].timeout = time.Duration(20+r.Intn(40)) * time.Millisecond
 			case 1:
 				plans[i].cancel = time.Duration(r.Intn(30)) * time.Millisecond
 				plans[i].timeout = 400 * time.Millisecond
